@@ -220,6 +220,9 @@ class AnsiString:
         Parameters:
             s - the new string to set
         '''
+        if isinstance(s, AnsiStr):
+            # The base string is a plain str: take the text of an AnsiStr, not the object itself
+            s = s.base_str
         if len(s) > len(self._s):
             if len(self._s) in self._fmts:
                 self._fmts[len(s)] = self._fmts.pop(len(self._s))
